@@ -155,7 +155,7 @@ func Cur() *Task {
 	}
 	id := int(autoNext.Add(-1)) + 1
 	if id < 1 {
-		abort("harness", "too many library goroutines")
+		abort("task-table-full", "too many library goroutines")
 	}
 	t := newTask(id, fmt.Sprintf("lib%d", id), Sched{Seed: runSeed, Mode: autoMode})
 	bind(t)
